@@ -144,6 +144,17 @@ theorem factor_of_real {A : Type*} [MeasurableSpace A] (ρ : Measure A) (k p : A
   refine ⟨?_, h⟩
   rw [lintegral_congr_ae h, lintegral_const_mul' _ _ ENNReal.ofReal_ne_top, hp1, mul_one]
 
+/-- under the hypotheses of `factor_of_real` the function is integrable and `ofReal` commutes
+with its integral -/
+theorem ofReal_integral_of_factor {A : Type*} [MeasurableSpace A] (ρ : Measure A) (k p : A → ℝ)
+    (hk : Measurable k) (hk0 : ∀ᵐ a ∂ρ, 0 ≤ k a) (hp0 : ∀ᵐ a ∂ρ, 0 ≤ p a)
+    (hp1 : ∫⁻ a, ENNReal.ofReal (p a) ∂ρ = 1) (Z : ℝ) (hZ : ∀ᵐ a ∂ρ, k a = Z * p a) :
+    ENNReal.ofReal (∫ a, k a ∂ρ) = ∫⁻ a, ENNReal.ofReal (k a) ∂ρ := by
+  have hfin : ∫⁻ a, ENNReal.ofReal (k a) ∂ρ ≠ ⊤ := by
+    rw [(factor_of_real ρ k p hk0 hp0 hp1 Z hZ).1]; exact ENNReal.ofReal_ne_top
+  exact ofReal_integral_eq_lintegral_ofReal
+    ((lintegral_ofReal_ne_top_iff_integrable hk.aestronglyMeasurable hk0).mp hfin) hk0
+
 /-- **Two-stage Gibbs invariance for real-valued densities.**  `jt : X → Y → ℝ` jointly measurable
 and a.e. nonnegative; for a.e. `x`, `jt x ·` is some constant multiple of the probability density
 `p1 x ·` (w.r.t. `ν`) and `∫ jt x y dν(y) = tg x`; for a.e. `y`, `jt · y` is some constant multiple
@@ -171,11 +182,7 @@ theorem gibbs_two_stage_real (μ : Measure X) (ν : Measure Y) [SFinite μ] [SFi
   -- for a.e. x the ℝ≥0∞ marginal is `ofReal (tg x)`
   have hmX : ∀ᵐ x ∂μ, ENNReal.ofReal (tg x) = ∫⁻ y, ENNReal.ofReal (jt x y) ∂ν := by
     filter_upwards [hjt0, h1, htg] with x hx0 ⟨hp0, hp1, Z, hZ⟩ hx
-    have hfin : ∫⁻ y, ENNReal.ofReal (jt x y) ∂ν ≠ ⊤ := by
-      rw [(factor_of_real ν (jt x) (p1 x) hx0 hp0 hp1 Z hZ).1]; exact ENNReal.ofReal_ne_top
-    have hint : Integrable (jt x) ν :=
-      (lintegral_ofReal_ne_top_iff_integrable (hjx x).aestronglyMeasurable hx0).mp hfin
-    rw [← hx, ofReal_integral_eq_lintegral_ofReal hint hx0]
+    rw [← hx, ofReal_integral_of_factor ν (jt x) (p1 x) (hjx x) hx0 hp0 hp1 Z hZ]
   refine gibbs_two_stage_factorised μ ν (fun x y => ENNReal.ofReal (jt x y))
     (ENNReal.measurable_ofReal.comp hjt) (fun x => ENNReal.ofReal (tg x))
     (fun y => ∫⁻ x, ENNReal.ofReal (jt x y) ∂μ) (fun x y => ENNReal.ofReal (p1 x y))
